@@ -13,16 +13,33 @@ META = {
     "design_ref": "5/C11",
     "coq_targets": ["Props/Properties_C11.vo", "FSTree/RangeCheck.vo"],
     "coq_files": ["Base/U64.v", "Gen/FSTreeConsts.v", "FSTree/Wire.v", "FSTree/Range.v", "FSTree/Combined.v", "FSTree/ObjGen.v",
-                  "FSTree/RangeCheck.v", "FSTree/WireProofs.v", "FSTree/RangeProofs.v", "Props/Properties_C11.v"],
-    "theorems": ["C11_resolve_spec", "C11_resolve_sound", "C11_stream_bytes", "C11_stream_bytes_plain",
+                  "FSTree/Layers.v", "FSTree/RangeCheck.v", "FSTree/WireProofs.v", "FSTree/RangeProofs.v", "Props/Properties_C11.v"],
+    "theorems": ["C11_resolve_spec", "C11_resolve_sound", "C11_stream_bytes", "C11_stream_bytes_nopayload", "C11_stream_bytes_plain",
                  "C11_stream_bytes_combined", "C11_stream_bytes_compressed", "C11_layers_agree"],
-    "technique": "Coq proof over all uint64 triples (Resolve) and over all objects / split points / ranges (stream shifting), "
-                 "model tied to the Go code by differential runs on real files",
-    "level_text": "",
-    "level_note": "",
+    "technique": "Coq proof over all uint64 triples (Resolve vs a wrap-free range specification) and over all payloads, head-buffer split "
+                 "points and ranges (stream shifting incl. the cut length varint), models tied to the Go code by differential runs on real files",
+    "level_text": "C11_resolve_spec/C11_resolve_sound: for every mode and all uint64 (a, b, len) the Gallina transcription of PayloadRange.Resolve "
+                  "(uint64 wrap arithmetic) equals a wrap-free range specification, stays inside the payload, covers exactly the denoted positions and "
+                  "answers out-of-range exactly for the unsatisfiable requests. C11_stream_bytes: for every payload P, every split point j of "
+                  "(length varint ++ P) between head buffer and stream (also inside the varint), every range, the model of shiftStreamToRange / "
+                  "shiftPayloadRangeStream delivers exactly P[off, off+ln) or out-of-range, for the stream shapes of plain files, combined files "
+                  "(limited reader, foreign records behind) and zstd streams (any decompressor inverting the stored bytes). The models are tied to "
+                  "the Go code on every run: Resolve exhaustively on small lengths + boundary values near 2^63/2^64, the stream functions through "
+                  "GetRangeStream / ReadPayloadRange / ReadObjectParts on planted plain, combined and zstd files with the head buffer ending "
+                  "around the payload tag and inside the length varint; the implementation's outputs are also compared with the theorem right-hand sides.",
+    "level_note": "partial: (1) the two scans of the head buffer (payload tag position, payload length in the header) enter C11_stream_bytes as premises "
+                  "(SFound / PlOk); their agreement with the Go scans is established by the differential tie only. (2) the combined-file window scan "
+                  "(readHeader) is modelled and tied but its proof belongs to C10. (3) C11_layers_agree is about a thin delegation model of "
+                  "write-cache / shard / engine (first non-not-found answer wins); engine metabase look-ups and the shard/engine layers are not "
+                  "exercised by the harness (modelled, not tied). (4) Read() chunking of the reader combinators is abstracted to 'bytes until EOF' "
+                  "(the harness drains with random chunk sizes); file I/O errors are not modelled. (5) zstd is an assumption (dec Z = Some obj). "
+                  "Premise: the payload field tag lies inside the buffered head (non-payload part < 20480 bytes, guaranteed by the header size limit).",
     "trusted_base": ["Coq 8.16.1 kernel, vm_compute", "hand-written models FSTree/Wire.v, Range.v, Combined.v tied by differential check",
-                     "harness/cmd/fstree, lib/vlib.py"],
-    "assumptions": [],
+                     "harness/cmd/fstree, harness/hooks/.../fstree/zz_verif_fstree.go, lib/vlib.py"],
+    "assumptions": ["zstd: dec(stored bytes) = object binary (Section hypothesis dec_inverts)",
+                    "payload length <= MaxInt64", "a, b, len are uint64 values",
+                    "payload field tag inside the head buffer; header payload length = actual payload length (well-formed object)",
+                    "kernel file reads return the file content (no I/O errors)"],
 }
 
 FMT = {"plain": 0, "combined": 1, "zplain": 2, "zcombined": 3}
